@@ -65,6 +65,16 @@ def run(report: Report, tier, seed):
     from .frag import run_fragcheck
     run_fragcheck(report, "O2.1", classes={"SubroutineCall", "Return"}, tier=tier)
     fails = bounded(report, tier, seed)
+    from . import abisub
+    from .abi_e2e import pool_map
+    ares = pool_map(abisub.case, abisub.jobs(tier, seed))
+    abad = [r for r in ares if r["problems"]]
+    report.bounded.append(Bounded(function="ABIReturnSubroutine calls with mixed parameter kinds", contract="by-value, by-reference (caller sees the writes), ABI and ABI-output parameters deliver / return the documented values in both calling conventions",
+                                  bound=f"{len(ares)} generated signatures (0..4 parameters of Expr / ScratchVar / abi.Uint64 / abi.String / abi.Tuple kinds, with and without output) x versions 6..10 x frame-pointer / optimiser settings",
+                                  cases=sum(r["ran"] for r in ares), distinct_nontrivial=len(ares), failures=len(abad)))
+    if abad:
+        b = abad[0]
+        fails = [{"input": {"abisub": [b["seed"], b["version"], b["opts"]]}, "mismatches": [{"what": b["problems"][0]}], "teal": b.get("teal")}] + fails
     report.sample({"obligation": "O2.4/callsite/stack-after-restore",
                    "meaning": "after `before; callsub f; after` the stack is base ++ result(f) for symbolic numArgs, len(slots), version"})
 
@@ -74,7 +84,7 @@ def run(report: Report, tier, seed):
     report.settle_refuted(search)
     if fails and not any(o.status == "refuted" for o in report.obs):
         f = fails[0]
-        report.violation(Violation(key=f"bounded:{f['input']['spec']['seed']}:{f['input']['spec']['version']}",
+        report.violation(Violation(key=(f"bounded:{f['input']['spec']['seed']}:{f['input']['spec']['version']}" if "spec" in f["input"] else f"abisub:{f['input']['abisub']}"),
                                    what=f"compiled program differs from its description: {f['mismatches'][0]['what'][:300]}",
                                    replay=f, confirmed_native=True))
 
@@ -82,6 +92,11 @@ def run(report: Report, tier, seed):
 def replay(data):
     r = data.get("replay") or {}
     nat = r.get("native") or r
+    if (nat.get("input") or {}).get("abisub"):
+        from . import abisub
+        out = abisub.case(tuple(nat["input"]["abisub"]))
+        print(out["problems"])
+        return 1 if out["problems"] else 0
     spec = (nat.get("input") or {}).get("spec")
     if not spec:
         print("no concrete input in replay file; refuted obligations:", [x["id"] for x in r.get("refuted", [])])
